@@ -1,14 +1,14 @@
 #!/bin/bash
-# runs every enabled check once (default seed), LANES at a time; one line per check in /tmp/final.log
+# runs every enabled check once (default seed), LANES at a time; one line per check in ${LOG:-/tmp/final.log}
 LANES=${1:-4}
-rm -f /tmp/final.log
+rm -f ${LOG:-/tmp/final.log}
 IDS=$(python3 -c "import sys; sys.path.insert(0,'/verif'); from checks.registry import ENABLED; print(' '.join(sorted(ENABLED)))")
 run1() {
   P=$1
   OUT=$(python3 /verif/vp.py check $P 2>&1); RC=$?
-  echo "$P rc=$RC $(echo "$OUT" | grep -E '^(OK|VIOLATION|FRAMEWORK)' | head -3 | tr '\n' ' ' | cut -c1-300)" >> /tmp/final.log
-  if [ $RC -ne 0 ]; then echo "$OUT" | tail -40 > /tmp/final-$P.out; fi
+  echo "$P rc=$RC $(echo "$OUT" | grep -E '^(OK|VIOLATION|FRAMEWORK)' | head -3 | tr '\n' ' ' | cut -c1-300)" >> ${LOG:-/tmp/final.log}
+  if [ $RC -ne 0 ]; then echo "$OUT" | tail -40 > ${LOG:-/tmp/final.log}-$P.out; fi
 }
 export -f run1
 echo $IDS | tr ' ' '\n' | xargs -P $LANES -I{} bash -c 'run1 {}'
-echo DONE >> /tmp/final.log
+echo DONE >> ${LOG:-/tmp/final.log}
